@@ -13,5 +13,5 @@ def _oracle(S, b, trace):
     return out
 
 
-K = Kit("C04", _oracle, streams=(("structured", 0.6), ("contention", 0.4)))
+K = Kit("C04", _oracle, streams=(("structured", 0.5), ("contention", 0.32), ("pairs", 0.18)))
 eval_case, run, replay = K.eval_case, K.run, K.replay
